@@ -147,7 +147,7 @@ func c03Family(seed uint64, family string) *lib.Pair {
 		p.Old.PutFile("aaa-kept.bin", k)
 		p.New.PutFile("aaa-kept.bin", k)
 		p.New.PutFile("zzz-copy-of-kept.bin", k)
-		p.New.PutFile("empty-new.bin", nil)                // empty file
+		p.New.PutFile("empty-new.bin", nil) // empty file
 		p.New.PutFile("empty-old.bin", lib.RandomBytes(777, r.Uint64()))
 		p.New.PutFile("new/fresh.bin", lib.RandomBytes(int64(r.Range(1, 5*lib.BS)), r.Uint64()))
 		p.New.PutFile("z-mix.bin", append(append([]byte(nil), a[:3*lib.BS]...), b[:2*lib.BS]...))
